@@ -152,6 +152,19 @@ def run_scenario(sc, variant=0):
             for l, k in num.items():  # noqa: E741
                 back[f"{fe}_{k}"] = f"{fe}_{l}"
 
+    elif variant % 4 == 1 and fes and all(df[fe].notna().all() for fe in fes) and all(_before_other(fe) for fe in fes):
+        # every fourth variant: the levels are strings that are PREFIXES of one another ("1", "10", "100", ... - district
+        # numbers), in the same (lexicographic) order as the letters: a level seen on the fitting rows is a proper prefix
+        # of levels seen only elsewhere (seeded change C16_I: levels matched to dummy columns with startswith)
+        letters = sorted({v for fe in fes for v in df[fe].unique()} | {x for fe in fes if isinstance(fixed, dict) and isinstance(fixed.get(fe), list) for x in fixed[fe] if x != "all"})
+        num = {l: "1" + "0" * k for k, l in enumerate(letters)}  # noqa: E741
+        for fe in fes:
+            df[fe] = df[fe].map(num)
+            if isinstance(fixed, dict) and isinstance(fixed.get(fe), list):
+                fixed[fe] = [num.get(x, x) for x in fixed[fe]]
+            for l, k in num.items():  # noqa: E741
+                back[f"{fe}_{k}"] = f"{fe}_{l}"
+
     def names(cols):
         return [back.get(str(c), str(c)) for c in cols]
 
